@@ -81,6 +81,15 @@ Theorem stop_under_fault_closes_channel_files :
 Proof. exact fault_stop_reachable. Qed.
 Print Assumptions stop_under_fault_closes_channel_files.
 
+(* Fault stream, second stage: the failed handle stays behind, so the START label of the next START cannot be
+   written either; whatever that START replies, the state it leaves reported agrees with what every channel
+   does with a published record. *)
+Theorem start_under_fault_state_matches_behaviour :
+  forall (c : config) (ops : list op) (r : wcreq),
+    fault_start_ok (c_proj c) (fault_start_obs (fst (run (init c) ops)) r) = true.
+Proof. exact fault_start_agrees. Qed.
+Print Assumptions start_under_fault_state_matches_behaviour.
+
 (* The code as it was before the fixes (SetOFF left the channel's pause flag set; START with a pixel map
    loaded indexed the map at -1): the same histories fail the checker. *)
 Theorem reported_state_matches_behaviour_refuted_pre_fix :
